@@ -571,6 +571,9 @@ func (p *Proc) Goroutines(tag string) (Event, error) {
 
 // Sync round-trips a marker through the hook channel.
 func (p *Proc) Sync(tag string) error {
+	if p.ctlL == nil {
+		return nil
+	}
 	from := p.Mark()
 	if err := p.send(map[string]interface{}{"op": "sync", "cid": tag}); err != nil {
 		return err
